@@ -137,3 +137,10 @@ Theorem C04_Known_pseudo_grease_refuted :
   (exists h, wf h = true /\ known_pseudo_grease h = true /\ result_line (parse_tls_client_hello (encode_hello h)) <> Ja4Spec.line h).
 Proof. exact Known_pseudo_grease_refuted. Qed.
 Print Assumptions C04_Known_pseudo_grease_refuted.
+
+(* ---- tie to the source: the GREASE table is TLS_GREASE_VALUES of tls.rs NOW (Gen/Consts.v is regenerated
+   from /repo on every run) ---- *)
+From HN Require Gen.Consts Proofs.ConstTieJa4.
+Theorem C04_grease_table_matches_source : HN.Model.Ja4.TLS_GREASE_VALUES = Consts.src_tls_grease_values.
+Proof. exact ConstTieJa4.grease_values_tie. Qed.
+Print Assumptions C04_grease_table_matches_source.
